@@ -415,8 +415,8 @@ func (H) Gen(prop string, seed uint64, tier string) *hx.Case {
 			continue
 		}
 		o := ledger.BlockOpts{NTx: r.Pick(15, 25, 25, 15, 10, 5, 5), InBlockChain: r.Chance(0.4)}
-		if fat {
-			o.Fat = r.Range(6000, 9500)
+		if fat && (prop != "C07" || r.Chance(0.6)) {
+			o.Fat = r.Range(6000, 9500) // (C07: big and small blocks mixed, so that a re-fed block can cover the bytes of several lost ones)
 		}
 		if fanout {
 			// blocks that fan out: several transaction packs, more than 32 spent and created records, in-block chains
